@@ -15,6 +15,7 @@ EXPLANATION = (
     "changes meaning); (labels) compiler-generated function labels are listed with the sites that look functions up by label. "
     "Whitespace/comment/parenthesis invariance depends on the chumsky tokenizer and the parser's behaviour on values and is not decided."
 )
+PASS_MODULES = ("::mirgen::convert_qualified_names::", "::mirgen::convert_pronoun::", "::mirgen::recursecheck::")
 PASSES = (
     "compiler::mirgen::convert_qualified_names::convert_expr",
     "compiler::mirgen::convert_qualified_names::collect_defined_names",
@@ -64,15 +65,20 @@ def rule_children(ck, facts):
     adt = facts.adt(roles.EXPR)
     fields = {v["n"]: v["f"] for v in adt["variants"]}
     n = 0
-    for short in PASSES:
-        f = facts.fn("mimium_lang::" + short)
-        if f is None:
-            ck.bad(R, "anchor|%s" % short, "pass %s not found" % short)
+    # the passes by role: in the three resolution / desugaring modules, every function that dispatches on Expr over at
+    # least fifteen forms (the walks over the whole expression language)
+    found = []
+    for g in facts.crate(roles.LANG).fns:
+        if g.kind != "fn" or "::test" in g.path or not any(m in g.path for m in PASS_MODULES):
             continue
+        cvg = cover.coverage(facts, g, roles.EXPR)
+        if cvg is None or cvg.primary is None or len(cvg.primary_handled()) < 15:
+            continue  # a walk over (nearly) the whole expression language, not a helper for one form
+        found.append(g)
+    ck.floor(R, "resolution_and_desugaring_walks", len(found), 5)
+    for f in found:
+        short = f.short
         cov = cover.coverage(facts, f, roles.EXPR)
-        if cov is None:
-            ck.bad(R, "anchor|match|%s" % short, "%s does not match on Expr" % short, f.where())
-            continue
         for v in sorted(cov.primary_handled()):
             if cov.arm_diverges(v):
                 continue
